@@ -2,7 +2,7 @@ package isaspec
 
 // Boundary value alphabets (DESIGN.md C03).
 
-// I32Quick is the integer alphabet of the quick tier (24 values).
+// I32Quick is the integer alphabet of the quick tier (26 values).
 var I32Quick = []uint64{
 	0, 1, 2, 0xffffffff, 0xfffffffe,
 	7, 8, 16, 31, 32, 33, 63, 64,
@@ -10,13 +10,14 @@ var I32Quick = []uint64{
 	0x7fffffff, 0x80000000, 0x80000001,
 	0x55555555, 0xaaaaaaaa,
 	0x00800000, 0x00ffffff,
+	0x001f001f, 0x00080004, // bit-field descriptors (width<<16 | offset)
 }
 
 // I32Full adds more 2^k +/- 1 values, 24-bit boundaries and bit-field
 // descriptors (width<<16 | offset).
 var I32Full = append(append([]uint64{}, I32Quick...),
 	9, 15, 17, 65, 0xff, 0x100, 0x007fffff, 0x01000000, 0x00ff00ff,
-	0x00080004, 0x001f001f, 0x00200000, 0x00010000|31, 0x00400000|5, 0x007f0000|1, 0x00100010,
+	0x00200000, 0x00010000|31, 0x00400000|5, 0x007f0000|1, 0x00100010,
 )
 
 // I64 is the 64-bit integer alphabet.
@@ -84,3 +85,27 @@ var M64 = []uint64{
 
 // Imm16 is the alphabet of 16-bit immediates.
 var Imm16 = []uint64{0, 1, 2, 0x7fff, 0x8000, 0x8001, 0xffff, 0xfffe, 0x00ff, 0x0100, 31, 32}
+
+// I32Wide adds every power of two and its neighbours (thorough tier, forms
+// with at most two varied operands).
+var I32Wide = func() []uint64 {
+	seen := map[uint64]bool{}
+	var out []uint64
+	add := func(v uint64) {
+		v &= 0xffffffff
+		if !seen[v] {
+			seen[v] = true
+			out = append(out, v)
+		}
+	}
+	for _, v := range I32Full {
+		add(v)
+	}
+	for k := uint(0); k < 32; k++ {
+		add(1 << k)
+		add(1<<k - 1)
+		add(1<<k + 1)
+		add(^(uint64(1) << k))
+	}
+	return out
+}()
